@@ -1,5 +1,6 @@
 """C20 — Summaries report the fluxes of the solution they describe."""
 from contracts import misc_small  # noqa
+from contracts import c20_reaction_summary as RS
 from props._generic import run_property, replay_with_driver
 
 LEVEL = "other"
@@ -7,11 +8,16 @@ KEYS = ["Summary._normalize_threshold"]
 
 
 def run(rep):
-    run_property(rep, KEYS, explanation=(
-        "Deductive part is thin and stated as such: of the summary code only Summary._normalize_threshold (the display threshold every "
-        "summary applies before rendering) is within reach - proved: None -> tolerance, below tolerance -> tolerance, otherwise the "
-        "given value. The flux tables themselves are pandas-vectorised (boolean masks, .loc assignment, joins); their row-wise meaning "
-        "rests on pandas semantics the verifier does not model: bounded driver (frames against the Solution passed in for every "
+    run_property(rep, KEYS, more=[(["ReactionSummary._generate"], RS.HOOKS)], explanation=(
+        "Deductive part is thin and stated as such: Summary._normalize_threshold (the display threshold every summary applies before "
+        "rendering) is proved: None -> tolerance, below tolerance -> tolerance, otherwise the given value. ReactionSummary._generate is "
+        "proved as data flow for every shape of its arguments: the flux shown is solution[<id of THIS reaction>] of the solution "
+        "passed in (looked up by identifier) or, when none was passed, of exactly one pfba(model) call; a float fva triggers exactly "
+        "one flux_variability_analysis(model, reaction_list=[this reaction], fraction_of_optimum=<that float>) whose result is what "
+        "is joined to the flux table, a given frame is joined as it is, no fva joins nothing; the summary's tolerance is the "
+        "model's (pandas operations uninterpreted; pfba / FVA abstract calls). The metabolite and model summaries mutate their "
+        "frames in place (boolean masks, .loc assignment, *=), which the opaque algebra cannot model soundly: their flux tables are "
+        "NOT proved and rest on pandas semantics: bounded driver (frames against the Solution passed in for every "
         "metabolite and reaction of generated models x solutions x fva settings; every summary renders to text, HTML and a frame)."),
         trusted=["pandas semantics", "string formatting"])
 
